@@ -106,7 +106,10 @@ func VerifH_C14_Mux() {
 	for i := 0; i < nf; i++ {
 		i := i
 		f := verifFilterBytes("f", verifChoice("flen", verifParam("maxmf", 2))+1)
-		err := mux.Handle(string(f), HandlerFunc(func(m *Message) { called = append(called, i) }))
+		err := mux.Handle(string(f), HandlerFunc(func(m *Message) {
+			called = append(called, i)
+			m.Topic = "#/+" // a handler may do what it likes with its copy
+		}))
 		v := refValidFilter(f)
 		verifAssert((err == nil) == v, "C14.mux_handle_error_iff_invalid")
 		fs = append(fs, f)
